@@ -37,6 +37,7 @@ func init() {
 		"vThorough":   func(m *machine, fr *frame, args []value) value { return m.w.thorough },
 		"vWriter":     hWriter,
 		"vNewContext": hNewContext,
+		"vGated":      func(m *machine, fr *frame, args []value) value { return false },
 		"vOnIdle": func(m *machine, fr *frame, args []value) value {
 			m.onIdle = args[0]
 			return nil
